@@ -11,14 +11,29 @@ TRUSTED = ["capabilities lookup (embedded JSON files) and the per-rule notice co
            "checked on the implementation's own report: a rule with a notice has no violation"]
 ASSUMPTIONS = []
 
-GATED_FILE = "\n".join(["package p%d", "", 'sc1 := count(indexof_n("a", "a"))', "ieo1 if {}", "# TODO: x", ""])
+GATED_FILE = "\n".join(["package p%d", "", 'sc1 := count(indexof_n("a", "a"))', "ieo1 if {}", "# TODO: x",
+                        'iol1 if {"a": input.x}', "olr1 if {", "\tinput.y", "}", 'sp1 := sprintf("%%d %%d", [1])',
+                        "has_key(m, k) if {", "\t_ = m[k]", "}", ""])
+GATED_TITLES = {"use-strings-count", "custom-has-key-construct", "sprintf-arguments-mismatch", "if-object-literal",
+                "if-empty-object", "one-liner-rule", "use-if", "use-contains", "use-rego-v1"}
 
 
 def run(ctx):
     rng = ctx.rng()
     vers = (ctx.impl([{"id": 0, "op": "c19.versions"}])[0].get("out")) or []
     ctx.notes.append("embedded OPA versions: %d" % len(vers))
-    pick = vers if not ctx.quick else (vers[:3] + rng.sample(vers, min(9, len(vers))) + vers[-3:])
+    # quick: at least one version of every distinct capability profile (keywords, features, gating-relevant built-ins)
+    # plus a few random ones; thorough: all
+    allcaps = ctx.impl([{"id": k, "op": "c19.caps", "version": v} for k, v in enumerate(vers)])
+    groups = {}
+    for k, v in enumerate(vers):
+        o = allcaps[k].get("out") or {}
+        key = (tuple(o.get("futureKeywords") or []), tuple(o.get("features") or []),
+               tuple(b for b in ("strings.count", "object.keys", "sprintf") if b in (o.get("builtins") or [])))
+        groups.setdefault(key, []).append(v)
+    ctx.notes.append("distinct capability profiles among embedded versions: %d" % len(groups))
+    pick = vers if not ctx.quick else ([g[0] for g in groups.values()] + [g[-1] for g in groups.values()] +
+                                       rng.sample(vers, min(4, len(vers))))
     cases = []
     # (1) kernel correspondence with strings.count removed / present
     for k in range(16 if ctx.quick else 120):
@@ -37,11 +52,24 @@ def run(ctx):
     for v in dict.fromkeys(pick):
         for nfiles in (1, 3):
             files = [{"name": "p%d.rego" % k, "content": GATED_FILE % k} for k in range(nfiles)]
-            user = {"rules": {"bugs": {"if-empty-object": {"level": "error"}}},
+            user = {"rules": {"bugs": {"if-empty-object": {"level": "error"}}, "custom": {"one-liner-rule": {"level": "error"}}},
                     "capabilities": {"from": {"engine": "opa", "version": v}}}
             vcases.append({"id": len(vcases), "op": "kernel.lint", "files": files, "user": user, "params": kernel.gen_params(rng, 1.0),
                            "prefix": "", "collect": False, "export": False, "all": True, "_v": v, "_n": nfiles})
     vres = ctx.impl(vcases, timeout=3000)
+    # what each version provides, read with OPA's loader, and what the model says must be skipped for it
+    vlist = list(dict.fromkeys(pick))
+    capq = [{"id": k, "op": "c19.caps", "version": v} for k, v in enumerate(vlist)]
+    capr = ctx.impl(capq)
+    gq = [dict(capr[k].get("out") or {}, id=k, op="c19.gating") for k in range(len(vlist))]
+    gr = ctx.model([g for g in gq if "builtins" in g])
+    must = {}
+    for k, v in enumerate(vlist):
+        if "builtins" not in gq[k]:
+            ctx.brk("c19.caps harness (OPA loader)", {"version": v}, capr[k], None)
+            continue
+        must[v] = {tuple(x) for x in (gr[k].get("out") or [])}
+        ctx.count("versions with %d rule(s) to skip" % len(must[v]))
     byv = {}
     for c in vcases:
         r = vres[c["id"]]
@@ -58,6 +86,19 @@ def run(ctx):
             if (v[0], v[1]) in titles_noticed:
                 ctx.fail("a rule listed as skipped (notice) still reported a violation", {"version": c["_v"], "files": c["_n"]},
                          None, {"violation": v})
+        # the property's positive half, against the gating table of the model (Caps.mustSkip) evaluated on the
+        # version's own capabilities file: a rule whose requirement the target lacks has a notice and no violation
+        if c["_v"] in must and not any(c["params"].get(k) for k in ("disable", "disableCategory", "disableAll", "ignoreFiles")):
+            got = {(n[0], n[1]) for n in notices if n[2] != "none" and n[1] in GATED_TITLES}
+            for r in sorted(must[c["_v"]] - got):
+                misfire = [v for v in viol if (v[0], v[1]) == r]
+                ctx.fail("the target lacks what rule %s/%s needs, but the rule is not listed as skipped%s" %
+                         (r[0], r[1], " and reports a violation" if misfire else ""),
+                         {"version": c["_v"], "files": c["_n"], "content": GATED_FILE}, None,
+                         {"must_skip": sorted(must[c["_v"]]), "noticed": sorted(got), "violations_of_rule": misfire[:3]})
+            if got - must[c["_v"]]:
+                ctx.brk("rule notices / capabilities.rego ~ Caps.mustSkip (a rule is skipped although the target provides "
+                        "what it needs)", {"version": c["_v"]}, sorted(got), sorted(must[c["_v"]]))
         skipped = len({tuple(n) for n in notices if n[2] != "none"})
         if io["summary"]["rulesSkipped"] != skipped:
             ctx.fail("rules_skipped differs from the number of distinct notices with severity != none",
